@@ -65,6 +65,32 @@ CLAIMED = {
        "propext/Classical.choice/Quot.sound; Specs as transcribed; translator; harness/generators.",
   technique="Lean 4 proof over translator-generated tables + model/implementation correspondence, Spec-judged on three API routes",
   ref="4/C09"),
+ "C10": dict(
+  text="Lean 4 theorems, unbounded in the tree, the path and the number of tuples: the code-shaped incremental XPathMatcher "
+       "(per-path step stack, fNoMatchDepth, fMatched) calls matched() exactly for the elements ./t1/.../tn selects and is back in its "
+       "initial state (matcher_eq_path); for .//t its match flag is XP_MATCHED_D exactly on the selected elements, nested ones included "
+       "(matcher_desc_eq_path); kernel-checked witnesses that outside these classes the matcher is NOT XPath (matcher_deviations). "
+       "ValueStore startValueScope/addValue/endValueScope composed per selected node: a duplicate is reported iff two complete tuples at "
+       "i<j are equal, a key scope is silent iff every field is present and tuples are pairwise distinct, IC_KeyNotFound iff some complete "
+       "reference equals no complete key, and the set of classes is invariant under permutation of the selected nodes and under the "
+       "interleaving of keys and references (dup_iff, key_iff, keyref_iff, perm_invariant, keyorder_invariant), with tuple equality = "
+       "equality of the denoted values (tupleEquals_value, isDuplicateOf_value: common-ancestor rule; decimal_eq_value: 1.0 = 1.00 = +1). "
+       "The executable judge icCheck reports nothing iff the declarative ICValid (cvc-identity-constraint 3/4 with the node tables of "
+       "3.11.5) holds (icCheck_iff_ICValid). XMLValid IC_* codes regenerated from XMLValidityCodes.hpp (ic_codes_are_errors). Tied to the "
+       "code by validating generated (schema, instance) pairs with the real XercesDOMParser (IGXMLScanner + SGXMLScanner, two schema-loading "
+       "routes, up to 3000 tuples) judged by icCheck and compared count-for-count with the code-shaped model of the handler, and by "
+       "driving the real XercesXPath/XPathMatcher directly, judged by pathMatches.",
+  note="PARTIAL: nested scopes are covered by the executable Spec (table) and the handler model by correspondence only "
+       "(table_single_scope proved; table_sibling_scopes_partial is a witness); the composition matcher+store+cache = icCheck is tied by "
+       "correspondence, not proved; attribute-target paths, unions and .// followed by several steps are outside the proved matcher classes "
+       "(the real matcher deviates there: recorded findings). The model follows the code as it is after the proposed fixes/c10-*.diff in three "
+       "places (sibling-scope value stores, overlapping selector unions, keyref without references); until they are applied the exact error "
+       "counts of cases in those zones are not compared with the model (the Spec judgement is unaffected). xsi:type, union/list typed fields, "
+       "default element values, XSD 1.1 not modelled. Trusted: Lean kernel + propext/Classical.choice/Quot.sound; XV.Spec.Identity as transcribed "
+       "(nilled element value taken as equal to itself only); DatatypeValidator::compare = value equality (C09); translator; harness, generators "
+       "and the Python renderer.",
+  technique="Lean 4 proof over code-shaped models + Spec-judged model/implementation correspondence (document level and direct XPathMatcher drive)",
+  ref="4/C10"),
 }
 
 def main():
